@@ -147,7 +147,9 @@ static void print_path_separator_if_needed(XmlMemo *memo, int *more_segments) {
 static void print_path_segment_walker(const char *segment, void *void_memo) {
     XmlMemo *memo = (XmlMemo *)void_memo;
 
-    memo->printer(file_stack[file_stack_p-1], "%s", segment);
+    char *escaped_segment = xml_escaped(segment);
+    memo->printer(file_stack[file_stack_p-1], "%s", escaped_segment);
+    free(escaped_segment);
     print_path_separator_if_needed(memo, &memo->segment_count);
 }
 
@@ -178,6 +180,7 @@ static void xml_reporter_start_suite(TestReporter *reporter, const char *suitena
     int segment_decrementer = reporter->breadcrumb->depth;
     XmlMemo *memo = (XmlMemo *)reporter->memo;
     FILE *out;
+    char *escaped_suite_path;
 
     (void)count;                /* UNUSED */
 
@@ -206,7 +209,9 @@ static void xml_reporter_start_suite(TestReporter *reporter, const char *suitena
     push_file(out);
     memo->printer(out, "<?xml version=\"1.0\" encoding=\"ISO-8859-1\" ?>\n");
     memo->printer(out, indent(reporter));
-    memo->printer(out, "<testsuite name=\"%s\">\n", suite_path);
+    escaped_suite_path = xml_escaped(suite_path);
+    memo->printer(out, "<testsuite name=\"%s\">\n", escaped_suite_path);
+    free(escaped_suite_path);
     reporter_start_suite(reporter, suitename, 0);
 }
 
@@ -222,6 +227,7 @@ static FILE *child_output_tmpfile;
 static void xml_reporter_start_test(TestReporter *reporter, const char *testname) {
     XmlMemo *memo = (XmlMemo *)reporter->memo;
     FILE *out = file_stack[file_stack_p-1];
+    char *escaped_testname;
 
     memo->printer(out, indent(reporter));
     memo->printer(out, "<testcase classname=\"");
@@ -230,7 +236,9 @@ static void xml_reporter_start_test(TestReporter *reporter, const char *testname
 
     // Don't terminate the XML-node now so that we can add the duration later
     // But then we need to accumulate subsequent output to report later
-    memo->printer(out, "\" name=\"%s\"", testname);
+    escaped_testname = xml_escaped(testname);
+    memo->printer(out, "\" name=\"%s\"", escaped_testname);
+    free(escaped_testname);
     reporter_start_test(reporter, testname);
     output = strdup("");
 
@@ -276,8 +284,17 @@ static void xml_concat_escaped_message(const char *message, va_list arguments) {
     concat_escaped(buffer);
 }
 
+/* The file name is of any length and may contain anything, so no fixed buffer and no raw copy */
+static void concat_location(const char *file, int line) {
+    char line_attribute[50];
+
+    output = concat(output, "\t<location file=\"");
+    concat_escaped(file);
+    snprintf(line_attribute, sizeof(line_attribute), "\" line=\"%d\"/>\n", line);
+    output = concat(output, line_attribute);
+}
+
 static void xml_show_fail(TestReporter *reporter, const char *file, int line, const char *message, va_list arguments) {
-    char buffer[1000];
     size_t already_written = strlen(output);
 
     output = concat(output, indent(reporter));
@@ -287,9 +304,7 @@ static void xml_show_fail(TestReporter *reporter, const char *file, int line, co
     output = concat(output, "\">\n");
     output = concat(output, indent(reporter));
 
-    snprintf(buffer, sizeof(buffer)/sizeof(buffer[0]),
-             "\t<location file=\"%s\" line=\"%d\"/>\n", file, line);
-    output = concat(output, buffer);
+    concat_location(file, line);
     output = concat(output, indent(reporter));
     output = concat(output, "</failure>\n");
 
@@ -304,11 +319,10 @@ static void xml_show_incomplete(TestReporter *reporter, const char *filename, in
     output = concat(output, "<error type=\"Fatal\" message=\"");
     vsnprintf(buffer, sizeof(buffer)/sizeof(buffer[0]),
             message ? message: "Test terminated unexpectedly, likely from a non-standard exception or Posix signal", arguments);
-    output = concat(output, buffer);
+    concat_escaped(buffer);
     output = concat(output, "\">\n");
     output = concat(output, indent(reporter));
-    snprintf(buffer, sizeof(buffer)/sizeof(buffer[0]),"\t<location file=\"%s\" line=\"%d\"/>\n", filename, line);
-    output = concat(output, buffer);
+    concat_location(filename, line);
     output = concat(output, indent(reporter));
     output = concat(output, "</error>\n");
 
